@@ -9,7 +9,7 @@ EXTENDS MambaStatic, MambaScope, Json, IOUtils
 
 Rec == ndJsonDeserialize(IOEnv.TRACE)
 
-NullSrcType(T, s) == CASE s = "none" -> NoneT [] s = "nullable" -> NT(T, TRUE) [] OTHER -> NT(T, FALSE)
+NullSrcType(T, s) == CASE s = "none" -> NoneT [] s \in {"nullable", "call", "call-via-var"} -> NT(T, TRUE) [] OTHER -> NT(T, FALSE)
 AsSet(seq) == {seq[j] : j \in 1..Len(seq)}      \* JSON has no sets
 Rule(o) ==
     LET n == o.note IN
@@ -20,7 +20,10 @@ Rule(o) ==
       [] o.kind \in {"init", "field-init"}           -> {Verdict(InitOK(n.declared, n.actual))}
       [] o.kind \in {"tuple-arg", "tuple-init"}      -> {Verdict(\A j \in 1..Len(n.declared) : Sub(n.declared[j], n.actual[j]))}
       [] o.kind \in {"null-init", "null-assign", "null-field", "null-arg", "null-ctor-arg", "null-return"}
-                                                     -> {Verdict(SubN(NT(n.target, n.target_nullable), NullSrcType(n.T, n.source)))}
+                                                     -> IF n.source = "call-via-var" /\ SubN(NT(n.target, n.target_nullable), NullSrcType(n.T, n.source))
+                                                        THEN {"accept", "reject"}     \* storing a T? in a variable WITHOUT annotation: the property does not say it is accepted
+                                                        ELSE {Verdict(SubN(NT(n.target, n.target_nullable), NullSrcType(n.T, n.source)))}
+      [] o.kind = "null-return-twin"                 -> {"accept"}
       [] o.kind = "null-use"                         -> {Verdict(n.source \in {"value", "defaulted"})}
       [] o.kind = "fin-loopvar"                      -> {"accept", "reject"}
       [] o.kind \in {"fin-var", "fin-undefined", "fin-param", "fin-member", "fin-shadow"}
